@@ -304,6 +304,7 @@ pub fn run(mut rep: Report) -> i32 {
     let chains = Chains::new(2, 2, 3, &pp_all);
     let plain = |a, l| slot_options(a, l, 2, &[None], None);
     let full = |a, l| slot_options(a, l, 2, &pp_all, None);
+    let listed = |a, l| -> Vec<SlotCfg> { plain(a, l).into_iter().filter(|s: &SlotCfg| s.side.iter().all(|x| x.listed())).collect() };
     // Representative states of a further slot: absent, equal, A ahead, B ahead, only A.
     let reps_a1: Vec<SlotCfg> = {
         use SlotSide::*;
@@ -340,31 +341,37 @@ pub fn run(mut rep: Report) -> i32 {
                 name: "deviations<=2: author0 log0 with prune points {none,1,2} and pruned prefixes x author0 log1 heights x 5 author1 states",
                 options: vec![full(0, 0), plain(0, 1), reps_a1.clone()],
                 max_dev: 2,
-                weight: 0.15,
+                weight: 0.3,
             },
             Part {
-                name: "deviations<=2: author0 log0,log1 and author1 log0 over {unlisted,empty,0,1,2}^2",
-                options: vec![plain(0, 0), plain(0, 1), plain(1, 0)],
+                name: "deviations<=2: author0 log0,log1 over {unlisted,empty,0,1,2}^2 x 5 author1 states",
+                options: vec![plain(0, 0), plain(0, 1), reps_a1.clone()],
                 max_dev: 2,
-                weight: 0.2,
+                weight: 0.1,
             },
             Part {
                 name: "stored-but-unlisted: author0 log0 incl. 'stored seq 0..=1 but not in Logs' x author0 log1 heights x 5 author1 states, deviations<=1",
-                options: vec![slot_options(0, 0, 2, &[None, Some(2)], Some(1)), plain(0, 1), reps_a1],
+                options: vec![slot_options(0, 0, 2, &[None, Some(2)], Some(1)), plain(0, 1), reps_a1.clone()],
                 max_dev: 1,
                 weight: 0.05,
             },
             Part {
-                name: "pruned: author0 log0,log1 with prune points {none,1,2} and pruned prefixes x author1 log0 heights, deviations<=1",
-                options: vec![full(0, 0), full(0, 1), plain(1, 0)],
+                name: "pruned: author0 log0,log1 with prune points {none,1,2} and pruned prefixes x 5 author1 states, deviations<=1",
+                options: vec![full(0, 0), full(0, 1), reps_a1],
                 max_dev: 1,
-                weight: 0.3,
+                weight: 0.2,
             },
             Part {
-                name: "heights: 2 authors x 2 logs over {unlisted,empty,0,1,2}^2, deviations<=1",
-                options: vec![plain(0, 0), plain(0, 1), plain(1, 0), plain(1, 1)],
+                name: "heights: 2 authors x 2 logs, every slot listed on both sides with heights {empty,0,1,2}^2 (65536 pairs), deviations<=1",
+                options: vec![listed(0, 0), listed(0, 1), listed(1, 0), listed(1, 1)],
                 max_dev: 1,
-                weight: 0.3,
+                weight: 0.25,
+            },
+            Part {
+                name: "unlisted logs and authors: author0 log0,log1 and author1 log0 over {unlisted,empty,0,1,2}^2, deviations<=1",
+                options: vec![plain(0, 0), plain(0, 1), plain(1, 0)],
+                max_dev: 1,
+                weight: 0.1,
             },
         ]
     };
@@ -381,7 +388,7 @@ pub fn run(mut rep: Report) -> i32 {
     rep.set("configurations", json!(total));
     rep.assume("'shared logs' is read as the logs of the session: a side offers the logs of its own Logs map; a receiver's 'own height' is its store height for logs in its own Logs map and 'none' otherwise");
     rep.assume("MemStore (refmodel) stands in for SqliteStore; on SqliteStore an author with an empty log list makes get_log_heights panic (property C08), which MemStore does not model");
-    rep.assume("chains have length 3 and at most one prune point; the full product 2 authors x 2 logs x all pruned variants (1.5e8 pairs) is covered by the sub-products listed in parts, not as one product");
+    rep.assume("chains have length 3 and at most one prune point; the product 2 authors x 2 logs x heights {empty,0,1,2} per side is enumerated completely (thorough); unlisted logs, empty log lists and pruned prefixes (1.5e8 pairs as one product) are covered by the sub-products listed in parts");
     rep.assume("received operations are ingested with the operation's own prune flag; pruning itself (log_prune processor) is not applied, it does not change heights");
     rep.finish()
 }
